@@ -322,3 +322,27 @@ def c08(run):
                              "TLC-enumerated corruptions of the specification's WKB encodings; non-trivial = every input"}
     family_enumerated(run, "decode", "Gen_Corrupt", "Trace_Decode", gen_cfg=tier_n(run, "Gen_Corrupt.cfg", "Gen_Corrupt_full.cfg"))
     family_random(run, "decode", "Trace_Decode", tier_n(run, 12000, 400000))
+
+FAMILY_MODULE["envelope"] = "Trace_Envelope"
+
+
+def _canary_envelope(e):
+    if e["kind"] != "geom" or not e["env"]:
+        return None
+    e["env"][2] += 1
+    return e
+
+
+CANARY["envelope"] = _canary_envelope
+
+
+@prop("C12")
+def c12(run):
+    run.assumptions += ["integer ordinates (envelope arithmetic is exact); the Union envelope is compared only when its corners are integers"]
+    run.extra_cov = {"rule": "every pair (quick: lattice 0..3, 101 envelopes) / triple (thorough: lattice 0..2) of envelopes incl. the "
+                             "empty one, degenerate point / horizontal / vertical ones, through every Envelope method; random lattice "
+                             "geometries of every type with empty members: Envelope(), six re-representations, members, Union"}
+    run.model_check("MC_Envelope", cfg=tier_n(run, "MC_Envelope.cfg", "MC_Envelope_thorough.cfg"), timeout=1800)
+    family_enumerated(run, "envelope", "Gen_Envelope", "Trace_Envelope", gen_cfg=tier_n(run, "Gen_Envelope.cfg", "Gen_Envelope_thorough.cfg"))
+    run.exhaustive = True
+    family_random(run, "envelope", "Trace_Envelope", tier_n(run, 5000, 200000))
